@@ -7,6 +7,8 @@ import FeatherModel.Lemmas.ClassParse
 import FeatherModel.Lemmas.BootstrapWrite
 import FeatherModel.Lemmas.FramePositions
 import FeatherModel.Lemmas.FrameReadBackCode
+import FeatherModel.Lemmas.ClassWriteFullDecide
+import FeatherModel.Lemmas.ClassWriteFullNoPanic
 
 /-!
 # C02 — the class writer emits a well-formed file denoting exactly the given class
@@ -804,5 +806,103 @@ example :
   rfl
 
 end ReadBack
+
+/-! ## 9. the whole class writer (`Model/ClassWriteFull.lean` = `write`, `write_field`, `write_method`, `write_code`,
+`write_record_component`, `write_module`, the annotation writers, `PoolWrite::write`)
+
+`ClassWriteFull.writeClass : ClassRead.ClassFacts → Except Fail Bytes` takes the class description C01's reader model
+delivers (the model of duke's `ClassFile` tree) and mirrors the Rust writer function by function, pool puts in the
+Rust's order.  It is tied to `duke::write_class` byte for byte by the op `class-write` (read with duke / the reader model,
+write with duke / this model, identical bytes) on the javac corpus and on random classes with every attribute kind.
+
+The headline statement, at full strength, is
+
+    ∀ t bytes r, writeClass t = .ok bytes → ∃ raw, ClassRead.read (bytes ++ r) = .ok (raw, r) ∧ raw.resolve = some (factsOf t)
+
+— C01's reader model (`Thm.C01.class_read_encode_partial` makes it the reader of every JVMS-legal encoding) reads the
+written file back to exactly the facts of `t` and stops at its end.  It is proved below for the decidable fragment
+`ClassWriteFull.InWriterFragment t` (hence `_partial`):
+
+* header, super types, interfaces; fields with `Deprecated Synthetic ConstantValue Signature` + unknown attributes;
+  methods **without `Code`** with `Deprecated Synthetic Exceptions Signature MethodParameters` + unknown attributes;
+  class attributes `Deprecated Synthetic InnerClasses EnclosingMethod Signature SourceFile SourceDebugExtension
+  ModulePackages ModuleMainClass NestHost NestMembers PermittedSubclasses` + unknown attributes;
+* names valid where the reader validates them, access flags within the masks the tree can hold, unknown attributes not
+  named like a known one (`ClassOk`), every constant and string of the pool the writer builds within its field
+  (`PoolOkOf`: the operand ranges of duke's tree types);
+* not yet in the fragment (modelled and tied byte-exactly, no theorem): `Code`, annotations and type annotations,
+  `AnnotationDefault`, `Record`, `Module`, `BootstrapMethods`.
+
+Route: the bytes are `(layout).encode` for the `ClassRead.Spec.ClassLayout` the writer chooses (its pool, its indices,
+its attribute order: `class_write_layout_partial`), every index the writer used resolves **in the final pool** to the
+constant it was put for (`pool_index_stable`: put → get, then monotonicity under every later put, then the reader's
+table of the written pool image), so the layout is `Legal`; its facts are `t`; `Thm.C01.class_read_encode_partial`. -/
+
+open ClassWriteFull in
+/-- an index at which the writer's pool holds an entry resolves, in the table C01's reader builds from the pool image of
+**any later pool** (`Ext p q`: reachable by further puts), to that entry: indices keep their meaning until the file is
+written -/
+theorem pool_index_stable (p q : PoolWrite.Pool) (h : Ext p q) (i : Nat) (e : PoolWrite.Entry) (hg : p.get i = some e) :
+    (rpool q).get i = .ok (conv e) :=
+  rget_of_get h.good.1 (h.le i e hg)
+
+open ClassWriteFull in
+/-- every put keeps the pool good (well formed, `constant_pool_count ≤ 65535`), keeps all earlier indices, and returns
+an index below 65536 that holds the entry -/
+theorem pool_put_step (p p' : PoolWrite.Pool) (e : PoolWrite.Entry) (i : Nat) (hg : FramePool.Good p)
+    (h : ClassWriteFull.put p e = .ok (i, p')) : Ext p p' ∧ p'.get i = some e ∧ i < 65536 := by
+  obtain ⟨s, a, b⟩ := put_spec hg h
+  exact ⟨⟨s.good, s.le⟩, a, b⟩
+
+open ClassWriteFull in
+/-- the written file is the JVMS encoding (`ClassRead.Spec.ClassLayout.encode`, the specification side of C01) of a
+layout that is legal and denotes exactly `t` -/
+theorem class_write_layout_partial (t : ClassRead.ClassFacts) (hfrag : InWriterFragment t) (bytes : Bytes)
+    (hw : writeClass t = .ok bytes) :
+    ∃ c : ClassRead.Spec.ClassLayout, bytes = c.encode ∧ c.Legal ∧ c.facts = some t :=
+  writeClass_layout t hfrag bytes hw
+
+open ClassWriteFull in
+/-- **written files are read back** (fragment: see the section header; full statement there) -/
+theorem class_write_read_partial (t : ClassRead.ClassFacts) (hfrag : InWriterFragment t) (bytes : Bytes)
+    (hw : writeClass t = .ok bytes) (r : Bytes) :
+    ∃ raw, ClassRead.read (bytes ++ r) = .ok (raw, r) ∧ raw.resolve = some t :=
+  writeClass_read t hfrag bytes hw r
+
+/-- **`write` never panics** — for *every* class description (the whole tree type: `Code` with the retry loop and the
+`StackMapTable`, annotations of any nesting, type annotations, `Record`, `Module`, bootstrap methods, counts of any
+size): the outcome of the model of `duke::write_class` is the bytes or the explicit error, never the panic outcome.
+The only unchecked arithmetic of the Rust writer left (`offset - previous - 1` of the `StackMapTable`, `as u16` of the
+last label) is unreachable / unobservable: `write_fails_cleanly`, `code_frames_never_panic`. -/
+theorem class_write_never_panics (t : ClassRead.ClassFacts) : ClassWriteFull.writeClass t ≠ .error .panic :=
+  ClassWriteFull.np_writeClass (fun is res hres fs p => code_frames_never_panic is res hres fs p) t
+
+/-- non-vacuity: an interface with two fields (constant values, signature, unknown attribute), an abstract method
+(`Exceptions`, `Signature`, `MethodParameters`, unknown attribute) and all class attributes of the fragment -/
+def exampleTree : ClassRead.ClassFacts :=
+  { minor := 0, major := 61, access := 0x0601, name := [65],
+    super := some [106, 97, 118, 97, 47, 108, 97, 110, 103, 47, 79, 98, 106, 101, 99, 116], interfaces := [[73]],
+    fields := [⟨0x19, [102], [73], true, false, some (.int 7), some [73], [], [], [], [], [⟨[88], [1, 2]⟩]⟩,
+               ⟨0x0a, [103], [74], false, true, some (.str [104, 105]), none, [], [], [], [], []⟩],
+    methods := [⟨0x401, [109], [40, 41, 86], false, true, none, some [[69]], some [40, 41, 86], [], [], [], [], none,
+                 some [⟨some [112], 0x10⟩, ⟨none, 0⟩], [⟨[89], []⟩]⟩],
+    deprecated := true, synthetic := false,
+    innerClasses := some [⟨[65, 36, 66], some [65], some [66], 8⟩, ⟨[67], none, none, 0⟩],
+    enclosingMethod := some ([79], some ([109], [40, 41, 86])), signature := some [76, 65, 59],
+    sourceFile := some [65, 46, 106], sourceDebugExtension := some [120, 0, 0x10000],
+    rva := [], ria := [], rvta := [], rita := [], module := none, modulePackages := some [[112]], moduleMainClass := some [77],
+    nestHost := some [78], nestMembers := some [[65, 36, 66]], permittedSubclasses := some [],
+    recordComponents := [], attrs := [⟨[90], [9]⟩] }
+
+example : ClassWriteFull.InWriterFragment exampleTree := by decide
+example : ∃ b, ClassWriteFull.writeClass exampleTree = .ok b := ⟨_, rfl⟩
+
+/-- `write_code` never looks at `Code.attributes`: whatever unknown attributes a method body carries, the same bytes are
+written — **the unknown attributes of `Code` are dropped** (the reader delivers them, `write_code` has no loop for them;
+witness on the real code: `oracle-cf-write-read full` on a class whose `Code` carries an attribute `Foo` answers
+`(fail other)`).  This is why `Code` with unknown attributes cannot enter the fragment of `class_write_read_partial`. -/
+theorem code_unknown_attributes_dropped_witness (c : ClassRead.Code) (as : List ClassRead.Attr) (p : PoolWrite.Pool)
+    (bs : List BootstrapWrite.Bsm) :
+    ClassWriteFull.writeCode { c with attrs := as } p bs = ClassWriteFull.writeCode c p bs := rfl
 
 end Thm.C02
